@@ -95,6 +95,10 @@ func (s *httpServer) doChannels(w http.ResponseWriter, req *http.Request, ps htt
 		return nil, http_api.Err{400, "MISSING_ARG_TOPIC"}
 	}
 
+	if !protocol.IsValidTopicName(topicName) {
+		return nil, http_api.Err{400, "INVALID_ARG_TOPIC"}
+	}
+
 	channels := s.nsqlookupd.DB.FindRegistrations("channel", topicName, "*").SubKeys()
 	return map[string]interface{}{
 		"channels": channels,
@@ -110,6 +114,10 @@ func (s *httpServer) doLookup(w http.ResponseWriter, req *http.Request, ps httpr
 	topicName, err := reqParams.Get("topic")
 	if err != nil {
 		return nil, http_api.Err{400, "MISSING_ARG_TOPIC"}
+	}
+
+	if !protocol.IsValidTopicName(topicName) {
+		return nil, http_api.Err{400, "INVALID_ARG_TOPIC"}
 	}
 
 	registration := s.nsqlookupd.DB.FindRegistrations("topic", topicName, "")
@@ -160,6 +168,10 @@ func (s *httpServer) doDeleteTopic(w http.ResponseWriter, req *http.Request, ps 
 		return nil, http_api.Err{400, "MISSING_ARG_TOPIC"}
 	}
 
+	if !protocol.IsValidTopicName(topicName) {
+		return nil, http_api.Err{400, "INVALID_ARG_TOPIC"}
+	}
+
 	registrations := s.nsqlookupd.DB.FindRegistrations("channel", topicName, "*")
 	for _, registration := range registrations {
 		s.nsqlookupd.logf(LOG_INFO, "DB: removing channel(%s) from topic(%s)", registration.SubKey, topicName)
@@ -184,6 +196,10 @@ func (s *httpServer) doTombstoneTopicProducer(w http.ResponseWriter, req *http.R
 	topicName, err := reqParams.Get("topic")
 	if err != nil {
 		return nil, http_api.Err{400, "MISSING_ARG_TOPIC"}
+	}
+
+	if !protocol.IsValidTopicName(topicName) {
+		return nil, http_api.Err{400, "INVALID_ARG_TOPIC"}
 	}
 
 	node, err := reqParams.Get("node")
